@@ -103,6 +103,38 @@ class CostExec(SymExec):
             self.env.setdefault('self.' + k, v)
 
     # ------------------------------------------------------------------ helpers
+    def check_noise_slices(self, e, tn, dexpr):
+        """noise drawn ONCE into a buffer and added to the releases of a loop: every release must take its own, disjoint part of the buffer.
+        Recognised: `N[end - x.size:end]` with `end` running over np.cumsum(sizes) alongside the loop's items, sizes = [D.size(p) for p in items]
+        and x the data vector of the item (its length is that size).  The whole buffer, or a slice starting at a fixed position, is the SAME
+        noise in every release: their differences are noise-free."""
+        cut = getattr(tn, 'cut', None)
+        lp = self.loops[-1] if self.loops else None
+        if cut is None or not isinstance(cut, ast.Slice) or (cut.lower is None) or (isinstance(cut.lower, ast.Constant)):
+            self.problem(e, 'the noise added here was drawn once, outside the loop (`%s`), and every release of the loop takes %s: the same draws are added to '
+                         'every released vector, so differences between releases carry no noise at all' % (
+                             U(tn.origin)[:60], 'the whole buffer' if cut is None else 'the slice `%s` that starts at a fixed position' % U(cut)))
+            return
+        ok = False
+        if isinstance(lp, ast.For) and isinstance(lp.iter, ast.Call) and U(lp.iter.func) == 'zip' and isinstance(lp.target, ast.Tuple) and cut.upper is not None:
+            E = U(cut.upper)
+            names = [U(t_) for t_ in lp.target.elts]
+            if E in names and isinstance(dexpr, ast.Name) and U(cut.lower).replace(' ', '') == '%s-%s.size' % (E, dexpr.id):
+                src = lp.iter.args[names.index(E)]
+                src = self.defs.get(src.id, src) if isinstance(src, ast.Name) else src
+                if isinstance(src, ast.Call) and U(src.func) in ('np.cumsum', 'numpy.cumsum') and len(src.args) == 1:
+                    S = src.args[0]
+                    S = self.defs.get(S.id, S) if isinstance(S, ast.Name) else S
+                    items = U(lp.iter.args[0])
+                    if isinstance(S, ast.ListComp) and len(S.generators) == 1 and not S.generators[0].ifs and U(S.generators[0].iter) == items and \
+                            isinstance(S.elt, ast.Call) and U(S.elt.func).endswith('domain.size') and len(S.elt.args) == 1 and U(S.elt.args[0]) == U(S.generators[0].target):
+                        xdef = self.defs.get(dexpr.id)
+                        if xdef is not None and U(xdef).replace(' ', '') == 'data.project(%s).datavector()' % names[0]:
+                            ok = True
+        if not ok:
+            raise AnalysisError('%s: noise drawn once (`%s`) is handed out in slices `%s`; whether the slices of different releases are disjoint is not decided'
+                                % (self.fi.qualname, U(tn.origin)[:50], U(cut)))
+
     def problem(self, node, text):
         self.world.problems.append((self.fi.rel, self.fi.qualname, node, text))
 
@@ -147,6 +179,9 @@ class CostExec(SymExec):
                 return Opaque(e, t.elem) if t.elem is not None else Opaque(e, Tag('public'))
             if t is not None and t.kind == 'unit':
                 return Alg(Rat.sym('elem(%s)' % t.var))
+            if t is not None and t.kind == 'noise' and getattr(t, 'origin', None) is not None:
+                # a slice of a buffer of i.i.d. draws: still i.i.d. draws of the same scale (which ones is checked at the release)
+                return tagged('noise', e, dist=t.dist, scale=t.scale, drawn_in=getattr(t, 'drawn_in', None), origin=t.origin, cut=e.slice)
             if t is not None and t.kind in ('vec', 'noisy'):
                 return base
             if t is not None and t.kind == 'data':
@@ -239,10 +274,18 @@ class CostExec(SymExec):
         w = self.world
         l, r = self.value(e.left), self.value(e.right)
         tl, tr = tag_of(l), tag_of(r)
+        # ---- noise scaled by a public number: c * N(0, s) is N(0, |c| s) -----------------------------------------------
+        if isinstance(e.op, ast.Mult):
+            for a_, b_ in ((l, r), (r, l)):
+                tn = tag_of(b_, 'noise')
+                if tn is not None and isinstance(a_, Alg) and isinstance(tn.scale, Alg) and getattr(tn, 'origin', None) is not None:
+                    return tagged('noise', e, dist=tn.dist, scale=a_ * tn.scale, drawn_in=getattr(tn, 'drawn_in', None), origin=tn.origin, cut=getattr(tn, 'cut', None))
         # ---- additive noise: the release ---------------------------------------------------------------
         if isinstance(e.op, ast.Add):
             for data, noise, dexpr in ((l, r, e.left), (r, l, e.right)):
                 tn = tag_of(noise, 'noise')
+                if tn is not None and getattr(tn, 'drawn_in', None) is not None and len(self.loops_now()) > tn.drawn_in:
+                    self.check_noise_slices(e, tn, dexpr)
                 if tn is not None:
                     td = tag_of(data)
                     rel = Release('noise', self.fi.rel, self.fi.qualname, e, dist=tn.dist, scale=tn.scale, stat=dexpr)
@@ -352,7 +395,7 @@ class CostExec(SymExec):
                 ((dotted or '').startswith('numpy.random') or U(f.value) in ('prng', 'self.prng', 'np.random')):
             scale = kwarg(call, 'scale', 1)
             return tagged('noise', call, dist='laplace' if last == 'laplace' else 'gaussian',
-                          scale=self.value(scale) if scale is not None else None)
+                          scale=self.value(scale) if scale is not None else None, drawn_in=len(self.loops_now()), origin=call, cut=None)
         if last in ('gaussian_noise', 'laplace_noise') and isinstance(f, ast.Attribute) and U(f.value) == 'self':
             scale = call.args[0] if call.args else None
             return tagged('noise', call, dist='laplace' if 'laplace' in last else 'gaussian',
